@@ -357,7 +357,7 @@ def finish(prop, tier, seed, t0, spec, results, smt_results, inconclusive, confi
                      "the solver showed reachable + SMT obligations discharged with both solver configurations; "
                      "each harness covers ALL values of its symbolic inputs within the stated bounds"),
             "samples": samples,
-            "explanation": spec.get("explanation", ""),
+            "explanation": spec.get("explanation") or (spec.get("level_text", "") + " " + spec.get("level_note", "")).strip() or "see DESIGN.md section 6",
             "harnesses_run": len(results),
             "harnesses_successful": harness_ok,
             "obligations": n_checks + len(smt_results),
